@@ -123,10 +123,42 @@ THEOREMS_SIMREPLIES = THEOREMS_SIMREPLIES_C03 + ["Slock.SimP.trace2_append", "Sl
                                                  "Slock.SimP.C05_answered_by_deadline_transfers", "Slock.SimP.C05_answered_by_deadline_transfers_syn"]
 
 
+# more stage-1 theorems at record level: C02 / C04 / C05 / C06 / C17 (Slock/Properties/EngineSimTransfer2.lean); every `X` below except the
+# helpers in `_SIMT2_NOSYN` also exists as `X_syn` (premises `FrameFree ops` + `leaderTicksFrom true ops = true` instead of `RunOK`)
+def _syn(names):
+    return [n for x in names for n in (x, x + "_syn")]
+
+
+_P = "Slock.SimP."
+THEOREMS_SIMT2_CORE = [_P + "run_view", _P + "run_view_syn", _P + "getKey_view", _P + "abs_keys_sub", _P + "abs_dbinv"] + \
+    _syn([_P + "step_view_lock", _P + "step_view_unlock"])
+THEOREMS_SIMT2_C02 = _syn([_P + x for x in ["C02_unlock_depth_effect_transfers", "C02_unlock_refused_transfers", "C02_cancel_wait_transfers",
+                                            "C02_relock_effect_transfers", "C02_depth_ceiling_transfers", "C02_reentrant_decision_transfers"]]) + \
+    [_P + "C02_unlock_decision_transfers"]
+THEOREMS_SIMT2_C04 = _syn([_P + "C04_no_lost_wakeup_transfers", _P + "C04_headAdmissible_transfers"])
+THEOREMS_SIMT2_C05 = _syn([_P + x for x in ["reachable_WInv_transfers", "C05_deadline_transfers", "C05_not_early_transfers", "C05_scheduled_ahead_transfers",
+                                            "C05_not_late_transfers", "C05_not_late_records", "C05_zero_effect_transfers", "C05_zero_transfers"]]) + \
+    [_P + "reachable_WInv_abs"]
+THEOREMS_SIMT2_C06 = _syn([_P + x for x in ["C06_scheduled_ahead_transfers", "C06_not_late_transfers", "C06_hid_unique_transfers", "reachable_HInv_transfers",
+                                            "C06_not_early_transfers", "C06_unlimited_transfers", "C06_not_late_unshortened_transfers"]]) + \
+    [_P + "reachable_HInv_abs", _P + "shortens_congr", _P + "noShorten_imgs", _P + "C06_not_late_unshortened_transfers_imgs"]
+THEOREMS_SIMT2_C17 = _syn([_P + x for x in ["C17_drain_transfers", "C17_drain_records", "C17_depth_census_transfers", "C17_lcount_grant_transfers",
+                                            "C17_lcount_release_transfers"]])
+THEOREMS_SIMTRANSFER2 = THEOREMS_SIMT2_CORE + THEOREMS_SIMT2_C02 + THEOREMS_SIMT2_C04 + THEOREMS_SIMT2_C05 + THEOREMS_SIMT2_C06 + THEOREMS_SIMT2_C17
+
+
+def audit_transfer2(ctx, theorems):
+    """Per-property part of EngineSimTransfer2 (called from c02.py / c04.py / c05.py / c06.py / c17.py): build the module, audit the
+    property's transferred theorems together with the view they rest on and the closing statement of the simulation."""
+    if ctx.lake_build(["Slock.Properties.EngineSimTransfer2"]):
+        ctx.audit("Slock.Properties.EngineSimTransfer2", theorems + THEOREMS_SIMT2_CORE + ["Slock.SimP.sim_run"])
+
+
 def audit_sim(ctx):
     """The stage-2 -> stage-1 simulation theorems proved so far (to be called from c01.py … c06.py / c17.py)."""
     ctx.lake_build(["Slock.Properties.EngineSim", "Slock.Properties.EngineSimTick", "Slock.Properties.EngineSimRun", "Slock.Properties.EngineSimTransfer",
-                    "Slock.Properties.EngineSimFrameFree", "Slock.Properties.EngineSimReplies"])
+                    "Slock.Properties.EngineSimFrameFree", "Slock.Properties.EngineSimReplies", "Slock.Properties.EngineSimTransfer2"])
+    ctx.audit("Slock.Properties.EngineSimTransfer2", THEOREMS_SIMTRANSFER2)
     ctx.audit("Slock.Properties.EngineSimReplies", THEOREMS_SIMREPLIES)
     ctx.audit("Slock.Properties.EngineSimTransfer", THEOREMS_SIMTRANSFER)
     ctx.audit("Slock.Properties.EngineSim", THEOREMS_SIM)
